@@ -268,13 +268,28 @@ public:
      * \param rhs The PDUOption to be copied.
      */
     PDUOption& operator=(const PDUOption& rhs) {
-        option_ = rhs.option_;
-        size_ = rhs.size_;
+        if (this == &rhs) {
+            return *this;
+        }
+        // Copy the payload before releasing ours, so this option stays
+        // valid if the allocation fails
+        data_type* new_buffer = 0;
+        if (rhs.real_size_ > small_buffer_size) {
+            new_buffer = new data_type[rhs.real_size_];
+            std::memcpy(new_buffer, rhs.payload_.big_buffer_ptr, rhs.real_size_);
+        }
         if (real_size_ > small_buffer_size) {
             delete[] payload_.big_buffer_ptr;
         }
+        option_ = rhs.option_;
+        size_ = rhs.size_;
         real_size_ = rhs.real_size_;
-        set_payload_contents(rhs.data_ptr(), rhs.data_ptr() + rhs.data_size());
+        if (new_buffer) {
+            payload_.big_buffer_ptr = new_buffer;
+        }
+        else {
+            std::memcpy(payload_.small_buffer, rhs.payload_.small_buffer, real_size_);
+        }
         return* this;
     }
     
